@@ -3,7 +3,7 @@ from lib.coqterm import cbool, clist, copt, ccodepoints, cN
 
 ID = "C45"
 QUICK_N = 5000
-THOROUGH_N = 90000
+THOROUGH_N = 40000
 SHARD = 400
 COQ_PRELUDE = "From MV Require Import Model.Command.\n"
 RULE = ("40% round trips: 1-3 arguments built from a dictionary of whitespace / both quotes / backslash escapes / "
